@@ -98,6 +98,26 @@ CHECKS.update({
             "Race detection is the Go runtime's, not TLA+'s.  Sampling over a seeded pool of frames.", "DESIGN.md 6/C15"),
 })
 
+PIPE_NOTE = ("Trusted: TLC; the verif hooks are placed immediately before the channel operations they name; Go channel semantics as modelled (rendezvous / bounded buffer). "
+             "Bounded: small inputs and consumer sets for exhaustive interleavings; larger inputs only free-running.")
+CHECKS.update({
+    "C09": ("model_checking", "TLC model checking of Pipeline.tla (all interleavings, safety + liveness) + TLC-simulated schedules forced on the real goroutines through gated verif hooks + TLC trace validation of gated and free runs",
+            "Pipeline.tla models reader, framer and fan-out as processes over Go channels with one gate per verifhook call site; TLC checks for every interleaving that each consumer gets a prefix of the sequential message "
+            "sequence, all of it when the call has returned, helpers finished, channels closed once, and termination under fairness.  The framer's emission schedule is computed by FramerCore on the real bytes.  "
+            "Simulated behaviours (sequences of hook passes) are replayed deterministically on the real goroutines: each hook blocks until the controller grants it, hook names are compared with the model at every step "
+            "(drift), and every consumer's messages are validated by TLC (C09_Trace) against the real framer run sequentially.  Free runs add GOMAXPROCS 1..16, seeded yields at hooks, chunked readers, the race detector.",
+            PIPE_NOTE, "DESIGN.md 6/C09"),
+    "C10": ("model_checking", "TLC trace validation of complete rtcmfilter runs (in-process entry point and built binary over pipes) against the output computed by FramerCore with the real CRC in TLA+",
+            "For every run TLC recomputes from the input bytes the messages the framing rules delimit and requires stdout = record file = concatenation of the typed ones, and one readable-log entry per delivered message "
+            "with the right length; all four switch combinations, seeded chunkings, process exit awaited before files are read.",
+            "Trusted: FramerCore as the statement of 'the framing rules' (checked against the code by C01-C03/C12 and against the properties by Framer_MC).", "DESIGN.md 6/C10"),
+    "C11": ("model_checking", "TLC model checking of Apps.tla (writer latency as separate start/end steps; as-found switch gives the counterexample) + that schedule forced on the real entry points with a blocking io.Writer + TLC trace validation",
+            "Apps.tla: with WaitForWriters the property holds for all interleavings and latencies; without it TLC yields main.closeChan, main.return before writer.writeEnd.  The replay blocks a chosen Write call of the output writer "
+            "of the real displayrtcm3.HandleMessages / rtcmfilter.HandleMessages (injected by go test -overlay): returning while that Write is provably still blocked is the violation, reproduced deterministically; "
+            "a correct implementation simply waits.  Output at return is compared with an unblocked reference run.",
+            PIPE_NOTE, "DESIGN.md 6/C11"),
+})
+
 NOT_YET = {}
 
 
@@ -138,7 +158,7 @@ def main():
     print("MANIFEST.json: %d checks, %d not claimed" % (len(checks), len(na)))
 
 
-HOOK_COMMITS = []
+HOOK_COMMITS = ['cb04636']
 
 if __name__ == "__main__":
     main()
